@@ -1520,11 +1520,15 @@ async fn scenario_c13_failed_retrier(id: u64, ctx: &str, mut plugin: Plugin, tow
         r.count("revocations_after_failed_retrier", 1);
     } else {
         let mut res = plugin.call("retrytower", json!([tid]), 10).await;
-        if let Err(CallErr::Rpc(e)) = &res {
-            if e.to_string().contains("already being retried") {
-                // the failed retrier had not been cleaned up yet: documented answer, try once more a little later
-                tokio::time::sleep(Duration::from_millis(2500)).await;
-                res = plugin.call("retrytower", json!([tid]), 10).await;
+        for _ in 0..8 {
+            match &res {
+                // the failed retrier has not been cleaned up yet (the manager's round is the product's wall clock): documented
+                // answer, asked again a little later
+                Err(CallErr::Rpc(e)) if e.to_string().contains("already being retried") => {
+                    tokio::time::sleep(Duration::from_millis(2500)).await;
+                    res = plugin.call("retrytower", json!([tid]), 10).await;
+                }
+                _ => break,
             }
         }
         r.count("manual_retries", 1);
